@@ -7,11 +7,14 @@ From MP Require Import Common.Base Common.Tree Common.XStr.
 Local Open Scope N_scope.
 
 (** xml.sax.saxutils.escape: ampersand first, then greater-than and less-than; the
-    extra entity (double quote to &quot;) is applied after the three basic ones. *)
+    extra entities of _escape_attribute (double quote, tab, newline, carriage return, in
+    dict order) are applied after the three basic ones. *)
 Definition escape (x : pystr) : pystr :=
   replace1 60 (s "&lt;") (replace1 62 (s "&gt;") (replace1 38 (s "&amp;") x)).
 
-Definition escape_attr (x : pystr) : pystr := replace1 34 (s "&quot;") (escape x).
+Definition escape_attr (x : pystr) : pystr :=
+  replace1 13 (s "&#13;") (replace1 10 (s "&#10;") (replace1 9 (s "&#9;")
+    (replace1 34 (s "&quot;") (escape x)))).
 
 Definition dq : pystr := [34].
 
